@@ -147,6 +147,19 @@ def oracle(c):
         return None
     cls = _class(c["formula"])
     tag = f"[class:{cls}] " if cls else ""
+    # the training state must be frozen in the design itself: build the same formula again on
+    # different data (other levels, other numeric values) before evaluating the first design
+    try:
+        from formulae import design_matrices
+        other = dm.to_pandas(c["frame"]).copy()
+        n = len(other)
+        for col in other.columns:
+            if other[col].dtype.kind in "if" and col != "k":
+                other[col] = other[col] * 3 + 7
+        other = other.iloc[: max(2, n // 2)]
+        design_matrices(c["formula"], other, extra_namespace=dict(c.get("extra") or {}))
+    except Exception:
+        pass
     for idx in c["idx"]:
         df = dm.to_pandas(dm.select_rows(c["frame"], idx))
         for part in ("common", "group"):
